@@ -32,6 +32,7 @@ type c10P struct {
 	Raw    string `json:"raw,omitempty"` // truncated | oversized | garbage | noclose | empty | bytes
 	Seed   int64  `json:"seed,omitempty"`
 	Prior  int    `json:"prior,omitempty"` // ordinary range requests served by the same server before the probe (cross-request state)
+	Grow   int    `json:"grow,omitempty"`  // the store grows by this many headers right after the server's first Head() call of the probe
 }
 
 const (
@@ -77,6 +78,17 @@ func TestC10(t *testing.T) {
 			mon.Emit(r, "request", c10P{Tail: T, Head: Hd, Kind: "hash", Hash: hk, HashH: mid, Amount: 0, Prior: 3}, "request")
 		}
 	}
+	// the store grows while a request around its head is being handled
+	for _, sh := range shapes[:2] {
+		T, Hd := sh[0], sh[1]
+		for _, o := range []uint64{Hd - 3, Hd - 1, Hd, Hd + 1, Hd + 2} {
+			for _, a := range []uint64{1, 2, 5, 64, 65} {
+				for _, g := range []int{1, 100} {
+					mon.Emit(r, "request", c10P{Tail: T, Head: Hd, Kind: "range", Origin: o, Amount: a, Grow: g}, "request")
+				}
+			}
+		}
+	}
 	rng := r.Rand("c10")
 	for i := 0; i < r.N(120, 19000); i++ {
 		sh := shapes[rng.Intn(2)]
@@ -96,7 +108,7 @@ func TestC10(t *testing.T) {
 
 func c10Run(c *mon.Case, p c10P) {
 	c.Bubble(func() {
-		chain := chainOf(int(p.Head) + 8)
+		chain := chainOf(int(p.Head) + 8 + p.Grow)
 		se := newStoreEnv(c, chain, p.Tail, p.Head)
 		defer se.stop()
 		w, err := simnet.New(2, time.Millisecond)
@@ -121,6 +133,16 @@ func c10Run(c *mon.Case, p c10P) {
 		}
 		se.rs.Reset()
 		se.d.ResetReads()
+		oldHead := se.head
+		if p.Grow > 0 {
+			se.rs.OnHead = func() {
+				gctx, gc := context.WithTimeout(context.Background(), time.Minute)
+				defer gc()
+				_ = se.st.Append(gctx, chain.Range(oldHead+1, oldHead+1+uint64(p.Grow))...)
+				_ = se.st.Sync(gctx)
+				c.Count("store_grew_during_request", 1)
+			}
+		}
 
 		var payload []byte
 		closeWrite := true
@@ -223,6 +245,10 @@ func c10Run(c *mon.Case, p c10P) {
 		if p.Prior > 0 {
 			class += " after-prior"
 		}
+		if p.Grow > 0 {
+			class += " store-grows"
+			se.head0, se.head = oldHead, oldHead+uint64(p.Grow) // content may come from the grown store, the cut from the old head
+		}
 		c.Class("tail=%d %s => %s", p.Tail, class, kind)
 		sig := p.Kind
 		if p.Kind == "raw" {
@@ -320,7 +346,7 @@ func c10Content(c *mon.Case, se *storeEnv, sig string, origin, amount uint64, hs
 			return
 		}
 	}
-	if uint64(len(hs)) < amount && origin+amount-1 <= se.head {
+	if uint64(len(hs)) < amount && origin+amount-1 <= se.headAtRequest() {
 		c.Violation("short-reply-inside-store/"+sig, fmt.Sprintf("%d of %d headers although origin %d + amount - 1 <= head %d", len(hs), amount, origin, se.head), nil)
 	}
 }
